@@ -251,6 +251,14 @@ class Case:
         """Integer-sorted term used as a real: polynomial over canonical integer atoms."""
         if z3.is_int_value(t):
             return RF(Poly.const(t.as_long()))
+        if z3.is_app(t) and t.decl().kind() == z3.Z3_OP_MUL:
+            nonconst = [t.arg(k) for k in range(t.num_args()) if not z3.is_int_value(t.arg(k))]
+            if len(nonconst) >= 2:
+                # products are outside linear arithmetic: multiply the factors' normal forms
+                r = RF(Poly.const(1))
+                for k in range(t.num_args()):
+                    r = r * self.norm_int(t.arg(k))
+                return r
         v = self.int_value(t)
         if v is not None:
             return RF(Poly.const(v))
@@ -334,6 +342,9 @@ class Case:
                 args.append(self.norm(a))
             else:
                 args.append(("raw", a))
+        v = _builtin_value(d.name(), args)
+        if v is not None:
+            return RF(Poly.const(v))
         lst = self.apps.setdefault(name, [])
         for (oargs, aid) in lst:
             ok = True
@@ -350,6 +361,28 @@ class Case:
         aid = ("app", self.new_atom(_short(t)))
         lst.append((args, aid))
         return RF(Poly.atom(aid))
+
+
+def _is_const(rf, c):
+    return isinstance(rf, RF) and (rf.n - rf.d.scale(Fraction(c))).is_zero()
+
+
+# named axiom instances at exact arguments (A8): f(args) = value
+_BUILTIN = {
+    ("cis_re", (0,)): 1, ("cis_im", (0,)): 0, ("cos", (0,)): 1, ("sin", (0,)): 0, ("exp", (0,)): 1,
+    ("log", (1,)): 0, ("cexp_re", (0, 0)): 1, ("cexp_im", (0, 0)): 0, ("csqrt_re", (0, 0)): 0,
+    ("csqrt_im", (0, 0)): 0, ("sqrt", (0,)): 0, ("sqrt", (1,)): 1, ("arctan", (0,)): 0,
+}
+
+
+def _builtin_value(name, args):
+    for (fn, consts), val in _BUILTIN.items():
+        if fn == name and len(consts) == len(args) and all(_is_const(a, c) for a, c in zip(args, consts)):
+            return val
+    if name == "pow" and len(args) == 2:
+        if _is_const(args[1], 0) or _is_const(args[0], 1):
+            return 1
+    return None
 
 
 def _short(t):
@@ -387,6 +420,7 @@ def prove(pc, hyps, goal, timeout_s=60, max_cases=4000):
     for h in hyps:
         s.add(h)
     failures = []
+    stack = []
 
     def rec(depth):
         if time.time() - t0 > timeout_s:
@@ -406,10 +440,10 @@ def prove(pc, hyps, goal, timeout_s=60, max_cases=4000):
                     try:
                         if s.check() == z3.sat:
                             mm = s.model()
-                            m = {d.name(): str(mm[d]) for d in mm.decls() if d.arity() == 0}
+                            m = {d.name(): str(mm[d]) for d in mm.decls() if d.arity() == 0 and not d.name().startswith(("kpre", "fk"))}
                     except z3.Z3Exception:
                         pass
-                    failures.append({"lhs": _short(a), "rhs": _short(b), "model": m,
+                    failures.append({"case": list(stack), "lhs": _short(a), "rhs": _short(b), "model": m,
                                      "residual_terms": len(diff.d),
                                      "residual": [("%s" % c, [(case.atom_names.get(x[1], str(x)), e) for x, e in mono])
                                                   for mono, c in list(diff.d.items())[:6]]})
@@ -419,13 +453,17 @@ def prove(pc, hyps, goal, timeout_s=60, max_cases=4000):
             c = ns.cond
             s.push()
             s.add(c)
+            stack.append(_short(c))
             rec(depth + 1)
+            stack.pop()
             s.pop()
             if failures:
                 return
             s.push()
             s.add(z3.Not(c))
+            stack.append("not " + _short(c))
             rec(depth + 1)
+            stack.pop()
             s.pop()
 
     try:
